@@ -493,8 +493,92 @@ def read_ureg(repo):
     return out
 
 
+# ------------------------------------------------------------------------------------------------
+# the glue around pint in context.py / datum.py (transcribed by hand in coq/Model/UnitsGlue.v): must be this code verbatim
+# (docstrings and comments aside)
+
+CONVERSION_FACTOR = '''
+@lru_cache()
+def conversion_factor(self, base_unit: Union[str, "_Quantity"], conv_unit: Union[str, "_Quantity"]) -> float:
+    from pint import Quantity as _Quantity
+    factor = 1.0
+    if isinstance(base_unit, str):
+        base_unit = self.ureg.parse_expression(base_unit)
+    if isinstance(conv_unit, str):
+        conv_unit = self.ureg.parse_expression(conv_unit)
+    if isinstance(base_unit, _Quantity):
+        factor *= base_unit.magnitude
+        base_unit = base_unit.units
+    if isinstance(conv_unit, _Quantity):
+        factor /= conv_unit.magnitude
+        conv_unit = conv_unit.units
+    return self.ureg.convert(factor, base_unit, conv_unit)
+'''
+UREG_PROPERTY = '''
+@property
+def ureg(self) -> "UnitRegistry":
+    if self._ureg is None:
+        self._ureg = build_units_registry(self)
+    return self._ureg
+'''
+QUANTITY_METHOD = '''
+def Quantity(self, data: str) -> "_Quantity":
+    return self.ureg.Quantity(data)
+'''
+TO_UNITS = '''
+def to_units(self, units=None):
+    from .physical_constants import constants
+    to_unit = self.units if units is None else units
+    factor = constants.conversion_factor(self.units, to_unit)
+    if isinstance(self.data, Decimal):
+        return factor * float(self.data)
+    else:
+        return factor * self.data
+'''
+
+
+def _method(cls, name, rel):
+    ms = [n for n in cls.body if isinstance(n, ast.FunctionDef) and n.name == name]
+    if len(ms) != 1:
+        raise TranslateError(f"{rel}: expected exactly one method {name}")
+    return ms[0]
+
+
+def check_glue(repo):
+    """Fail closed if conversion_factor / ureg / Quantity (context.py) or Datum.to_units (datum.py) is not the code that
+    Model/UnitsGlue.v transcribes.  Returns the lru_cache maxsize (functools' default when lru_cache() is called bare)."""
+    rel = "qcelemental/physical_constants/context.py"
+    with open(os.path.join(repo, rel)) as fh:
+        tree = ast.parse(fh.read())
+    cls = [n for n in tree.body if isinstance(n, ast.ClassDef) and n.name == "PhysicalConstantsContext"]
+    if len(cls) != 1:
+        raise TranslateError(f"{rel}: class PhysicalConstantsContext not found")
+    imports = [ast.unparse(n) for n in tree.body if isinstance(n, (ast.Import, ast.ImportFrom))]
+    if "from functools import lru_cache" not in imports:
+        raise TranslateError(f"{rel}: lru_cache is no longer functools.lru_cache")
+    for name, src in (("conversion_factor", CONVERSION_FACTOR), ("ureg", UREG_PROPERTY), ("Quantity", QUANTITY_METHOD)):
+        m = _strip_docstrings(ast.parse(ast.unparse(_method(cls[0], name, rel))).body[0])
+        _same(m, src, f"{rel}: {name}")
+    n_init = [x for x in ast.walk(_method(cls[0], "__init__", rel)) if isinstance(x, ast.Assign) and ast.unparse(x) == "self._ureg = None"]
+    if len(n_init) != 1:
+        raise TranslateError(f"{rel}: __init__ no longer sets self._ureg = None exactly once")
+    others = [n for n in ast.walk(tree) if isinstance(n, ast.Attribute) and n.attr == "_ureg"]
+    if len(others) != 4:          # __init__ (1) + the property (3)
+        raise TranslateError(f"{rel}: self._ureg is used outside __init__ and the ureg property")
+    rel2 = "qcelemental/datum.py"
+    with open(os.path.join(repo, rel2)) as fh:
+        tree2 = ast.parse(fh.read())
+    dcls = [n for n in tree2.body if isinstance(n, ast.ClassDef) and n.name == "Datum"]
+    if len(dcls) != 1:
+        raise TranslateError(f"{rel2}: class Datum not found")
+    m = _strip_docstrings(ast.parse(ast.unparse(_method(dcls[0], "to_units", rel2))).body[0])
+    _same(m, TO_UNITS, f"{rel2}: Datum.to_units")
+    return 128
+
+
 def generate(repo):
     raw = read_ureg(repo)
+    lru_maxsize = check_glue(repo)
     shipped = {y: codata.read_shipped(repo, y) for y in codata.YEARS}
     # names defined by ureg.py: primary -> aliases
     parsed = []
@@ -632,6 +716,8 @@ def generate(repo):
     out.append("(* pint Contexts: source dimension, target dimension, transformer *)")
     out.append("Definition bridges : list (list Z * list Z * hop) := [\n  " + ";\n  ".join(
         f"({clist(DIM_EXPR[s], cz)}, {clist(DIM_EXPR[d], cz)}, {h})" for s, d, h in contexts) + " ].")
+    out.append("(* functools.lru_cache() on conversion_factor: maxsize (context.py, checked verbatim by check_glue) *)")
+    out.append(f"Definition lru_maxsize : nat := {lru_maxsize}%nat.")
     ids, pre = spelling_tables(own)
     out.append("(* spellings (names, symbols, aliases) -> canonical unit name; prefix spellings -> canonical prefix (trusted data from pint + ureg.py's own aliases) *)")
     out.append("Definition ident_table : list (string * string) := [\n  " + ";\n  ".join(f"({cstr(k)}, {cstr(v)})" for k, v in sorted(ids.items())) + " ].")
